@@ -11,6 +11,8 @@ func init() { register("C03", checkC03) }
 
 func checkC03(cx *Ctx, r *Report) {
 	w, fx := cx.W, cx.Fx
+	cx.checkNoTemplateBypass(r)
+	cx.checkCallbackLookupKey(r)
 	// storage is asked with the request's context (which carries the issuer / tenant in effect): keys, providers and
 	// users are those of this request
 	cx.checkStorageContext(r)
